@@ -11,6 +11,9 @@ examples; proofs in Lemmas/C18Select.lean.
 The variable considered (`varkey`) is the variable of the first key of the
 representative file that `rx_key` matches, in the order h5py lists the keys.
 
+KNOWN FINDING (witnesses `group_variables_from_one_chunk_file*` below): the
+variables of a group are read from one chunk file.
+
 NOT covered: the choice of the representative FILE (`foundFile`: first
 single-variable file that is not NaNmask, else the first file of the first
 group) is modelled and compared with the code but no theorem says that the
@@ -136,6 +139,54 @@ theorem variables_of_one_file_are_not_mixed :
     (iterationsCall noTables exMixed false emptyFS).1.itfile =
       some (printLines [.restart 0, .vars ["alp".toList, "dtalp".toList],
         .reading "/d/s/output-0000/s/mythorn-lapses.h5".toList, .its 0 8, .arange 0 0 8 4, .chk []]) := by
+  decide +kernel
+
+/-! ### KNOWN FINDING `group_variables_from_one_chunk_file` (not repaired in the
+repository): `get_content` reads the variables of a group from ONE chunk file —
+the first file of the group in the directory listing.  The same directories
+are rebuilt and run on the real code on every run (`chunk_variable_witnesses`
+of tools/props/C18.py). -/
+
+def mkKeyC (var : String) (it c : Nat) : Str :=
+  formatKey ⟨"HYDROBASE".toList, var.toList, it, 0, false, some 0, some c⟩
+
+def hamFile (c : Nat) (vars : List (String × List Nat)) : H5File :=
+  { name := "hydrobase-ham.file_".toList ++ toDec c ++ ".h5".toList,
+    keys := (vars.map fun v => v.2.map fun it => mkKeyC v.1 it c).flatten ++ [sAttr],
+    hashOrder := vars.map fun v => v.1.toList }
+
+/-- one file per process; process files 1 and 2 appear with the regrid at
+iteration 48, when only `H` is written (`HC`, `rho` have a larger out_every) -/
+def ham0 : H5File := hamFile 0 [("H", [32, 40, 48, 56]), ("HC", [32]), ("rho", [32])]
+def ham1 : H5File := hamFile 1 [("H", [48, 56])]
+def ham2 : H5File := hamFile 2 [("H", [48, 56])]
+
+def exChunks (files : List H5File) : Sim :=
+  { simpath := "/d/".toList, simname := ['s'], entries := [sOutput ++ "0000".toList],
+    restarts := [{ nbr := 0, files := files }] }
+
+def pathHam (c : Nat) : Str := "/d/s/output-0000/s/hydrobase-ham.file_".toList ++ toDec c ++ ".h5".toList
+
+/-- **the variable catalogue depends on the listing order and can lose
+variables that are on disk**: with the late process file listed first, the
+group is catalogued as `H` alone (`HC` and `rho` are in `file_0`); with
+`file_0` listed first all three variables are found. -/
+theorem group_variables_from_one_chunk_file :
+    (getContent noTables (exChunks [ham1, ham0, ham2]) 0 true emptyFS).2 =
+      [(["H".toList], [pathHam 0, pathHam 1, pathHam 2])] ∧
+    (getContent noTables (exChunks [ham0, ham1, ham2]) 0 true emptyFS).2 =
+      [(["H".toList, "HC".toList, "rho".toList], [pathHam 0, pathHam 1, pathHam 2])] := by
+  decide +kernel
+
+/-- independent of the listing order: each chunk file lacks a variable the
+other one holds, and one of them is lost either way -/
+theorem group_variables_from_one_chunk_file_any_order :
+    (getContent noTables (exChunks [hamFile 0 [("H", [32, 40, 48, 56]), ("HC", [32, 48])],
+        hamFile 1 [("H", [48, 56]), ("rho", [48])]]) 0 true emptyFS).2 =
+      [(["H".toList, "HC".toList], [pathHam 0, pathHam 1])] ∧
+    (getContent noTables (exChunks [hamFile 1 [("H", [48, 56]), ("rho", [48])],
+        hamFile 0 [("H", [32, 40, 48, 56]), ("HC", [32, 48])]]) 0 true emptyFS).2 =
+      [(["H".toList, "rho".toList], [pathHam 0, pathHam 1])] := by
   decide +kernel
 
 /-! ### non-vacuity of `restart_data_describes_the_variable` / `restart_level_lines_describe_the_variable` -/
